@@ -107,6 +107,51 @@ CLAIMED = {
          "workers at each of the four joblib levels is OBSERVED on real small simulations (joblib/loky scheduling and MT19937/SeedSequence "
          "quality are runtime behaviour the model cannot exhibit).",
     design="§4 C15, §9", technique="Lean 4 model of seed plumbing / task scheduling + correspondence + differential re-execution across worker configurations"),
+ "C08": dict(
+    text="Proved in Lean 4 for all d, m, tester and schedule lists, both flags and every var (symbolically, not on a basis): dictionary entry (s,x) "
+         "of the four tomographies' coefficient construction = Born-rule circuit value on the object built from var, with key order = row order "
+         "(QST / POVMT / QPT / QMPT incl. the eliminated first row of the last HS); full rank <=> statistics map injective; calc_prob_dists = circuit "
+         "for equal outcome counts, with negation witnesses for mixed counts. Correspondence on matA, vecB, objOf and the compose circuit with mixed "
+         "outcome counts and schedule variants (subsets, repetitions, permutations); affine-basis oracle on the real code. Gaps: eps clipping inside "
+         "compose, POVMT / QMPT column-count theorems (covered by correspondence).",
+    design="§4 C08, §9", technique="Lean 4 proof (symbolic affine identity over list model of _set_coeffs) + correspondence + affine-basis oracle"),
+ "C09": dict(
+    text="Proved in Lean 4 for all shapes and data over any ordered field under the contract G(A^T A)=1 (numpy's inv is a model parameter): exact "
+         "recovery, normal equations, least-squares optimality and uniqueness, sequence = pointwise, independence from sample counts, the rank guard, "
+         "and soundness of the executed least-squares certificate checker lsqCert which certifies every implementation output in exact rationals. "
+         "Model tied to the code on 4 types x 2 flags x complete / over-complete testers (1 qubit, qutrit, 2 qubits). Rounding and conditioning of "
+         "numpy's inv are not proved (generators keep cond <= 1e3).",
+    design="§4 C09, §9", technique="Lean 4 proof (normal equations via Mathlib matrices) + verified certificate checker + correspondence"),
+ "C10": dict(
+    text="Proved in Lean 4 for the model of the three projected-gradient algorithms, the projected linear estimator and the physical projection: every "
+         "backtracking iterate and the estimate lie in the (delta-thickened) convex physical set for all step counts (induction); momentum and FISTA "
+         "return projection outputs; a stopped physical projection is within sqrt(eps) of both constraint sets; the constraint selection table stated "
+         "outright; projected-linear = projection o linear. Partial: termination and eps-accuracy of the loops; exact-data recovery by backtracking "
+         "(fails for dependent-element parametrisations: known finding). Tied to the code by step-by-step correspondence of recorded histories "
+         "(8 ops) and a physicality / recovery oracle on 1 qubit, qutrit and 2 qubits.",
+    design="§4 C10, §9", technique="Lean 4 proof (feasibility invariant by induction over iterations; selection table) + history correspondence + physicality oracle"),
+ "C11": dict(
+    text="Proved in Lean 4 in a real inner-product space (projection characterised by its variational inequality): projected-gradient fixed point <=> "
+         "first-order optimality <=> constrained minimiser; descent direction; the coded sufficient-decrease test => the loss is non-increasing along "
+         "a run and iterates are feasible; meaning of the four stopping criteria; the CVXPY objective equals the plain squared error up to 1/S for "
+         "equal shots. Partial: eps-optimality of the stopped iterate; the SCS solver is trusted (agreement is an oracle observation on the real "
+         "cvxpy 1.9 / SCS 3.3 installation). Line-search correspondence on real loss values; optimality-certificate oracle incl. the CVXPY estimator.",
+    design="§4 C11, §9", technique="Lean 4 proof (convex analysis in InnerProductSpace R) + line-search correspondence + optimality-certificate oracle"),
+ "C17": dict(
+    text="Lean 4 proofs, all dimensions, that the constructions the catalogues are built from (pure vector -> state, ONB -> POVM, unitary -> gate incl. "
+         "Choi PSD, Kraus set -> TP/CP map, exp(-iH) unitary) are physical, and soundness of the executed psdCert checker. Every catalogue entry is "
+         "ENUMERATED on the real code and checked for physicality, agreement of all alternative descriptions, textbook actions and rejection of unknown "
+         "names: quick covers all small catalogues and 348 of the 39 204 2-qutrit names, thorough all 39 204 gate names. A sample of 360 outputs is "
+         "certified through the Lean checkers. Execution of checkers and enumeration is not kernel-checked.",
+    design="§4 C17, §9", technique="Lean 4 proof of the generic constructions + verified certificate checkers + exhaustive enumeration on the implementation"),
+ "C18": dict(
+    text="Machine-checked (Lean 4, all dimensions) for the executable model of effective_lindbladian.py: generators built from (H,K) act as the GKSL "
+         "equation and are trace-annihilating / first-row-zero; the first row is the trace functional; the equality projection zeroes exactly the first "
+         "row and is the Frobenius-nearest point; extraction o rebuild returns K and the traceless part of H; J-extraction / parts-sum with the code "
+         "as it is are refuted by proved witnesses (known finding) and proved for the patched formula; first row of every exponential partial sum is "
+         "e0. Tied to the real code by exact-rational correspondence (23 ops; 1 qubit / qutrit / 2 qubits, two basis families). CP of exp(L), the "
+         "Matrix.exp limit and K-PSD <=> CP are checked per run on the implementation, not proved.",
+    design="§4 C18, §9", technique="Lean 4 proof over a star-field model + exact-rational correspondence + GKSL oracle"),
 }
 PENDING_REASON = "check not built yet in this round (build order in DESIGN.md §8); not claimed until its Lean model, theorems and correspondence exist"
 
@@ -127,7 +172,7 @@ for p in props:
         })
 man = {
  "version": 1,
- "setup_cmd": "cd lean && lake build",
+ "setup_cmd": "./tools/setup.py",
  "hooks": {
    "guard": "QUARA_VERIF",
    "enable": "no source hook is needed: the harness imports /repo in-process (PYTHONPATH) after installing the scipy.linalg.kron shim; QUARA_VERIF=1 is exported by harness/shim.py but read by no line of /repo",
